@@ -25,3 +25,28 @@ func VerifTrimNow(w Wal) error {
 func VerifLastAppended(w Wal) int64 {
 	return w.(*wal).lastAppendedOffset.Load()
 }
+
+// VerifEntry is one physical WAL entry as seen by VerifReadAll.
+type VerifEntry struct {
+	Term   int64
+	Offset int64
+	Value  []byte
+}
+
+// VerifReadAll reads every entry physically readable in [FirstOffset, lastAppended], including
+// appended entries that are not synced yet (which the public readers do not expose).
+func VerifReadAll(w Wal) (first int64, lastAppended int64, lastSynced int64, entries []VerifEntry, err error) {
+	t := w.(*wal)
+	first, lastAppended, lastSynced = t.firstOffset.Load(), t.lastAppendedOffset.Load(), t.lastSyncedOffset.Load()
+	if first == InvalidOffset || lastAppended == InvalidOffset {
+		return first, lastAppended, lastSynced, nil, nil
+	}
+	for o := first; o <= lastAppended; o++ {
+		e, err := t.readAtIndex(o)
+		if err != nil {
+			return first, lastAppended, lastSynced, entries, err
+		}
+		entries = append(entries, VerifEntry{Term: e.Term, Offset: e.Offset, Value: e.Value})
+	}
+	return first, lastAppended, lastSynced, entries, nil
+}
